@@ -219,18 +219,29 @@ pub fn check(c: &PgCase) -> Verdict {
             v.label("ok");
             let mut overlap = false;
             let mut bad: Vec<String> = vec![];
-            // user: an empty user counts as unset; USER is the fallback
+            // user: an empty user counts as unset. A user named by the Config wins, else the URL's
+            // stays; with neither, the statement leaves the result open (the implementation at
+            // hand falls back to $USER) except that an empty user must not be in effect
             let want_user: Option<String> = cfg
                 .user
                 .clone()
                 .filter(|s| !s.is_empty())
-                .or(b.get_user().filter(|s| !s.is_empty()).map(|s| s.to_string()))
-                .or(std::env::var("USER").ok());
+                .or(b.get_user().filter(|s| !s.is_empty()).map(|s| s.to_string()));
             if cfg.user.as_deref().is_some_and(|s| !s.is_empty()) && b.get_user().is_some() {
                 overlap = true;
             }
-            if pg.get_user().map(|s| s.to_string()) != want_user {
-                bad.push(format!("user is {:?}, expected {:?}", pg.get_user(), want_user));
+            match &want_user {
+                Some(_) => {
+                    if pg.get_user().map(|s| s.to_string()) != want_user {
+                        bad.push(format!("user is {:?}, expected {:?}", pg.get_user(), want_user));
+                    }
+                }
+                None => {
+                    v.label("user-unset");
+                    if pg.get_user() == Some("") {
+                        bad.push("an empty user is in effect (it counts as unset)".to_string());
+                    }
+                }
             }
             let want_pw: Option<Vec<u8>> = cfg.password.clone().map(|s| s.into_bytes()).or(b.get_password().map(|p| p.to_vec()));
             if cfg.password.is_some() && b.get_password().is_some() {
@@ -316,14 +327,20 @@ pub fn check(c: &PgCase) -> Verdict {
                 }
             }
             if want_hosts.is_empty() {
+                // "the platform's default socket directories or 127.0.0.1 are used only when no
+                // host is given": one-directional, so with no host named the list may hold
+                // defaults or nothing, but nothing else
                 v.label("default-hosts");
-                want_hosts = vec![
+                let defaults = [
                     Host::Unix("/run/postgresql".into()),
                     Host::Unix("/var/run/postgresql".into()),
                     Host::Unix("/tmp".into()),
+                    Host::Tcp("127.0.0.1".into()),
                 ];
-            }
-            if pg.get_hosts() != &want_hosts[..] {
+                if let Some(h) = pg.get_hosts().iter().find(|h| !defaults.contains(h)) {
+                    bad.push(format!("no host was given but hosts are {:?}: {:?} is not a platform default", pg.get_hosts(), h));
+                }
+            } else if pg.get_hosts() != &want_hosts[..] {
                 bad.push(format!("hosts are {:?}, expected {:?}", pg.get_hosts(), want_hosts));
             }
             let mut want_addrs: Vec<IpAddr> = b.get_hostaddrs().to_vec();
